@@ -986,7 +986,11 @@ func (m *Nitro) StoreToDisk(dir string, snap *Snapshot, concurr int, itmCallback
 		snap = &fakeSnap
 
 		defer func() {
-			if err = m.changeDeltaWrState(dwStateTerminate, nil, nil); err == nil {
+			// Do not lose an error of the data scan
+			if derr := m.changeDeltaWrState(dwStateTerminate, nil, nil); err == nil {
+				err = derr
+			}
+			if err == nil {
 				bs, _ := json.Marshal(deltaFiles)
 				err = ioutil.WriteFile(filepath.Join(deltadir, "files.json"), bs, 0660)
 				if err == nil {
